@@ -209,6 +209,8 @@ pub enum HintShape {
     Exact,
     Unknown,
     Loose,
+    /// honest but with the largest possible upper bound: (r, Some(usize::MAX))
+    LooseMax,
 }
 
 pub struct UpState {
@@ -1342,6 +1344,7 @@ impl<I: UpItem> Stream for Upstream<I> {
                     HintShape::Exact => (r, Some(r)),
                     HintShape::Unknown => (0, None),
                     HintShape::Loose => (r.saturating_sub(1), Some(r + 1)),
+                    HintShape::LooseMax => (r, Some(usize::MAX)),
                 }
             })
         })
